@@ -48,6 +48,7 @@ def parse (line : String) : Option Case :=
     let (grain?, ws) := match ws with
       | [m, mx, "to=g"] => (some true, [m, mx])
       | [m, mx, "to=a"] => (some false, [m, mx])
+      | [m, mx, "to=n"] => (some false, [m, mx])   -- RequestName: same machinery after the name lookup
       | [m, mx] => (some false, [m, mx])
       | _ => (none, ws)
     match grain?, ws with
